@@ -256,6 +256,21 @@ func BuildIndex(p *Program) *Index {
 					if cal := calleeOf(cc.Common()); cal != nil {
 						ix.Callees[fn] = append(ix.Callees[fn], cal)
 						ix.Callers[cal] = append(ix.Callers[cal], fn)
+						// a method value handed to a helper of the library (doLocked(cb.close)) is called on fn's behalf
+						if p.InScope[cal] {
+							for _, a := range cc.Common().Args {
+								mc, isMC := a.(*ssa.MakeClosure)
+								if !isMC {
+									continue
+								}
+								if bf, isF := mc.Fn.(*ssa.Function); isF && strings.HasSuffix(bf.Name(), "$bound") {
+									if m := p.TargetOf(bf); m != nil && m != origin(bf) {
+										ix.Callees[fn] = append(ix.Callees[fn], m)
+										ix.Callers[m] = append(ix.Callers[m], fn)
+									}
+								}
+							}
+						}
 					}
 				}
 			}
